@@ -49,7 +49,7 @@ class FnEmitter:
             self.count_tree(t[2])
             self.count_tree(t[3])
         else:
-            for kind, v in t[1].args:
+            for kind, v, *_ in t[1].args:
                 if kind == "arr":
                     for e in v:
                         self.count(e)
@@ -161,7 +161,7 @@ class FnEmitter:
         if r[0] == "tuple":
             return "(" + ", ".join(self.ret(x, bound, pre) for x in r[1]) + ")"
         if r[0] == "arr":
-            return self.whole_or_lit(r[2], bound, pre)
+            return self.whole_or_lit(r[2], bound, pre, tuple(r[1]))
         return self.expr(r[1], bound, pre)
 
     # ---------- trees
@@ -195,9 +195,9 @@ class FnEmitter:
         call = t[1]
         pre = []
         args = []
-        for kind, v in call.args:
+        for kind, v, *rest in call.args:
             if kind == "arr":
-                args.append(self.whole_or_lit(v, bound, pre))
+                args.append(self.whole_or_lit(v, bound, pre, rest[0]))
             elif kind == "scalar":
                 args.append(self.expr(v, bound, pre))
             elif kind == "enum":
@@ -230,7 +230,7 @@ class FnEmitter:
             out += self.tree(t[2], dict(bound), ind)
         return out
 
-    def whole_or_lit(self, elems, bound, pre):
+    def whole_or_lit(self, elems, bound, pre, want_shape=None):
         # a whole parameter array or whole call output passed on unchanged
         e0 = elems[0]
         if e0.op == "elt" and all(
@@ -238,14 +238,16 @@ class FnEmitter:
             for i, e in enumerate(elems)
         ):
             shape = dict((n, i) for n, k, i in self.d["spec"].params if k == "arr").get(e0.args[0])
-            if shape is not None and len(elems) == _prod(shape):
+            if shape is not None and tuple(shape) == tuple(want_shape or ()):
                 return e0.args[0]
         if e0.op == "callout" and all(
             e.op == "callout" and e.args[:2] == e0.args[:2] and e.args[2] == i
             for i, e in enumerate(elems)
         ):
             cid, path, _ = e0.args
-            return self.callnames[cid] + "".join(f"_{i}" for i in path)
+            from symtrace import CALLOUT_SHAPES
+            if CALLOUT_SHAPES.get((cid, path)) == tuple(want_shape or ()):
+                return self.callnames[cid] + "".join(f"_{i}" for i in path)
         return self.arr_lit(elems, bound, pre)
 
     def pattern(self, r, base):
